@@ -81,6 +81,10 @@ func childStore() {
 	fillPer, _ := strconv.Atoi(os.Args[6])
 	fillSize, _ := strconv.Atoi(os.Args[7])
 	t0, _ := strconv.ParseInt(os.Args[8], 10, 64)
+	closeAt := -1
+	if len(os.Args) > 9 && mode == "lateclose" {
+		closeAt, _ = strconv.Atoi(os.Args[9])
+	}
 
 	rd := bufio.NewReaderSize(os.Stdin, 1<<20)
 	line, _ := rd.ReadString('\n')
@@ -119,6 +123,16 @@ func childStore() {
 					s.Store(&message.Message{ID: id, Channel: []byte("fill/"), Payload: pl, TTL: 1})
 				}
 				m := msgs[i]
+				if i == closeAt {
+					// the store is closed while the broker still has messages to store (a clean stop that
+					// overlaps publishing connections): later Store calls must not be acknowledged
+					emit("C")
+					if err := s.Close(); err != nil {
+						emit("F")
+					} else {
+						emit("D")
+					}
+				}
 				emit("B " + strconv.Itoa(i))
 				res := func() (res string) {
 					defer func() {
@@ -137,6 +151,16 @@ func childStore() {
 	}
 	wg.Wait()
 	switch mode {
+	case "lateclose":
+		if closeAt < 0 || closeAt >= n {
+			emit("C")
+			if err := s.Close(); err != nil {
+				emit("F")
+			} else {
+				emit("D")
+			}
+		}
+		os.Exit(0)
 	case "clean", "killclose":
 		emit("C")
 		if err := s.Close(); err != nil {
@@ -452,11 +476,14 @@ func doRun(w []string) string {
 		fmt.Fprintf(&sb, "%s %s %s %d\n", vlib.Hex(ms.m.ID), vlib.Hex(ms.m.Channel), vlib.Hex(ms.m.Payload), ms.m.TTL)
 	}
 	mode := "kill"
-	if how == "clean" || how == "killclose" {
+	if how == "clean" || how == "killclose" || how == "lateclose" {
 		mode = how
 	}
+	if how == "lateclose" {
+		workers = 1
+	}
 	c, err := spawn([]string{"child-store", cur.dir, strconv.FormatUint(cur.retain, 10), strconv.Itoa(workers), mode,
-		fill[0], fill[1], strconv.FormatInt(cur.t0, 10)}, sb.String())
+		fill[0], fill[1], strconv.FormatInt(cur.t0, 10), strconv.Itoa(k)}, sb.String())
 	if err != nil {
 		return "spawn-failed"
 	}
@@ -667,6 +694,28 @@ func step(w []string, line string) string {
 			return doRun(w)
 		case "check":
 			return doCheck(w)
+		case "plant":
+			// plant: what a kill while badger creates (or deletes) a memtable file leaves behind — a zero-length
+			// NNNNN.mem with the next file id. The store must open all the same.
+			if cur == nil {
+				return "bad-op"
+			}
+			next := 1
+			if ents, err := os.ReadDir(cur.dir); err == nil {
+				for _, e := range ents {
+					if strings.HasSuffix(e.Name(), ".mem") {
+						if v, err := strconv.Atoi(strings.TrimSuffix(e.Name(), ".mem")); err == nil && v >= next {
+							next = v + 1
+						}
+					}
+				}
+			}
+			f, err := os.Create(filepath.Join(cur.dir, fmt.Sprintf("%05d.mem", next)))
+			if err != nil {
+				return "plant-failed"
+			}
+			f.Close()
+			return "ok"
 		case "incarnations":
 			// incarnations <p> <n>: p successive broker processes each create their first n message ids for
 			// one channel within one second; the id is the key of the stored message, so an id a later
